@@ -810,8 +810,157 @@ def ufunc_cases(rng, tier):
     return cs
 
 
+# ------------------------------------------------------------ functionals
+def fser(f):
+    """Python functional -> Gallina term of type fexpr (T:=Q)"""
+    import odl
+    import odl.solvers as S
+    Fm = odl.solvers.functional.functional
+    Dm = odl.solvers.functional.default_functionals
+    t = type(f)
+    n = f.domain.size
+    if t is Dm.L2NormSquared:
+        return '(FL2Sq %d)' % n
+    if t is Dm.L2Norm:
+        return '(FL2 %d)' % n
+    if t is Dm.L1Norm:
+        return '(FL1 %d)' % n
+    if t is Dm.ConstantFunctional:
+        return '(FConst %d %s)' % (n, C.q(float(f.constant)))
+    if t is Dm.ZeroFunctional:
+        return '(FConst %d %s)' % (n, C.q(0.0))
+    if t is Fm.FunctionalLeftScalarMult:
+        return '(FLScal %s %s)' % (fser(f.functional), C.q(float(f.scalar)))
+    if t is Fm.FunctionalRightScalarMult:
+        return '(FRScal %s %s)' % (fser(f.functional), C.q(float(f.scalar)))
+    if t is Fm.FunctionalScalarSum:
+        return '(FScalarSum %s %s)' % (fser(f.left), C.q(float(f.scalar)))
+    if t is Fm.FunctionalSum:
+        return '(FSum %s %s)' % (fser(f.left), fser(f.right))
+    if t is Fm.FunctionalTranslation:
+        return '(FTransl %s %s)' % (fser(f.functional), C.qs(vals(f.translation)))
+    if t is Fm.FunctionalQuadraticPerturb:
+        return '(FQP %s %s %s %s)' % (fser(f.functional), C.q(float(f.quadratic_coeff)),
+                                      C.qs(vals(f.linear_term)), C.q(float(f.constant)))
+    if t is Fm.FunctionalProduct:
+        return '(FProd %s %s)' % (fser(f.left), fser(f.right))
+    if t is Fm.FunctionalQuotient:
+        return '(FQuot %s %s)' % (fser(f.dividend), fser(f.divisor))
+    if t is Fm.FunctionalRightVectorMult:
+        return '(FRVec %s %s)' % (fser(f.functional), C.qs(vals(f.vector)))
+    if t is Fm.FunctionalComp and type(f.right).__name__ == 'MatrixOperator':
+        m = np.asarray(f.right.matrix)
+        return '(FCompM %s %d %s)' % (fser(f.left), m.shape[1], C.qss(m.tolist()))
+    raise Unsupported('no model for functional %s' % t.__name__)
+
+
+def fgen(rng, X, depth):
+    """random functional on the unweighted space X = rn(n), built from the classes of functional.py"""
+    import odl
+    import odl.solvers as S
+    Fm = odl.solvers.functional.functional
+    n = X.size
+    if depth <= 0 or rng.random() < 0.15:
+        k = rng.choice(['l2sq', 'l2sq', 'l1', 'const', 'zero'])
+        if k == 'l2sq':
+            return S.L2NormSquared(X)
+        if k == 'l1':
+            return S.L1Norm(X)
+        if k == 'const':
+            return S.ConstantFunctional(X, rng.choice([2.0, -1.0, 0.5]))
+        return S.ZeroFunctional(X)
+    d = depth - 1
+    k = rng.choice(['lscal', 'rscal', 'sum', 'ssum', 'transl', 'qp', 'prod', 'quot', 'rvec', 'compm'])
+    sc = rng.choice([2.0, -1.0, 0.5, 3.0, -2.0])
+    if k == 'lscal':
+        return Fm.FunctionalLeftScalarMult(fgen(rng, X, d), sc)
+    if k == 'rscal':
+        return Fm.FunctionalRightScalarMult(fgen(rng, X, d), sc)
+    if k == 'sum':
+        return Fm.FunctionalSum(fgen(rng, X, d), fgen(rng, X, d))
+    if k == 'ssum':
+        return Fm.FunctionalScalarSum(fgen(rng, X, d), sc)
+    if k == 'transl':
+        return Fm.FunctionalTranslation(fgen(rng, X, d), X.element(rvec(rng, n)))
+    if k == 'qp':
+        return Fm.FunctionalQuadraticPerturb(fgen(rng, X, d), rng.choice([0.0, 1.0, -0.5, 2.0]),
+                                             X.element(rvec(rng, n)) if rng.random() < 0.8 else None,
+                                             rng.choice([0.0, 1.0, -2.0]))
+    if k == 'prod':
+        return Fm.FunctionalProduct(fgen(rng, X, d), fgen(rng, X, d))
+    if k == 'quot':
+        return Fm.FunctionalQuotient(fgen(rng, X, d), Fm.FunctionalScalarSum(S.L2NormSquared(X), rng.choice([1.0, 2.0])))
+    if k == 'rvec':
+        return Fm.FunctionalRightVectorMult(fgen(rng, X, d), X.element(rvec(rng, n, zero_ok=False)))
+    m = rng.choice([1, 2, 3])
+    Y = odl.rn(m)
+    return Fm.FunctionalComp(fgen(rng, Y, d),
+                             odl.MatrixOperator(np.array([rvec(rng, n) for _ in range(m)]), domain=X, range=Y))
+
+
+def functional_cases(rng, tier):
+    import odl
+    import odl.solvers as S
+    cs = C.CaseSet('functionals', ['C06.Syntax', 'Gen.UfuncDeriv', 'C06.Model', 'C06.FModel', 'C06.Corr'], 'fcheck', 'fcase')
+    n_cases = 250 if tier == 'quick' else 2000
+    maxd = 3 if tier == 'quick' else 5
+    tries = 0
+    while len(cs.cases) < n_cases and tries < 30 * n_cases:
+        tries += 1
+        X = odl.rn(rng.choice([1, 2, 2, 3]))
+        try:
+            with np.errstate(all='ignore'):
+                f = fgen(rng, X, rng.randint(0, maxd))
+                x = X.element(rvec(rng, X.size, zero_ok=False))
+                d = X.element(rvec(rng, X.size))
+                e = fser(f)
+                val = float(f(x))
+                grad = vals(f.gradient(x))
+                D = f.derivative(x)
+                dd = float(D(d))
+                inner = (type(D).__name__ == 'InnerProductOperator' and
+                         bool(np.allclose(vals(D.vector), grad, rtol=1e-12, atol=1e-12)))
+                nums = [val, dd] + grad
+                if not _finite_small(nums):
+                    continue
+                term = ('{| f_e := %s; f_x := %s; f_d := %s; f_val := %s; f_grad := %s; f_dd := %s; f_inner := %s |}'
+                        % (e, C.qs(vals(x)), C.qs(vals(d)), C.q(val), C.qs(grad), C.q(dd), C.b(inner)))
+        except (ValueError, OverflowError, ZeroDivisionError):
+            continue                  # non-finite number somewhere
+        if len(term) > 60000:
+            continue
+        cs.add(term, {'functional': repr(f)[:300], 'x': vals(x), 'd': vals(d)}, (term,))
+    # L2Norm needs exact roots: Pythagorean points
+    reps = 1 if tier == 'quick' else 4
+    Fm = odl.solvers.functional.functional
+    for xs, vs in PYTH[:8]:
+        X = odl.rn(len(xs))
+        x = X.element(xs)
+        nx = math.sqrt(sum(a * a for a in xs))
+        if nx != int(nx):
+            continue
+        N = S.L2Norm(X)
+        for _ in range(reps):
+            sc = rng.choice([2.0, -3.0, 0.5])
+            fs = [N, Fm.FunctionalLeftScalarMult(N, sc), Fm.FunctionalRightScalarMult(N, sc), Fm.FunctionalSum(N, S.L2NormSquared(X)),
+                  Fm.FunctionalProduct(N, S.L1Norm(X)), Fm.FunctionalQuotient(S.L2NormSquared(X), N),
+                  Fm.FunctionalQuadraticPerturb(N, 1.0, X.element(rvec(rng, len(xs))), 2.0), Fm.FunctionalScalarSum(N, sc)]
+            for f in fs:
+                d = X.element(rvec(rng, len(xs)))
+                with np.errstate(all='ignore'):
+                    val = float(f(x)); grad = vals(f.gradient(x)); D = f.derivative(x); dd = float(D(d))
+                if not _finite_small([val, dd] + grad):
+                    continue
+                inner = type(D).__name__ == 'InnerProductOperator'
+                term = ('{| f_e := %s; f_x := %s; f_d := %s; f_val := %s; f_grad := %s; f_dd := %s; f_inner := %s |}'
+                        % (fser(f), C.qs(vals(x)), C.qs(vals(d)), C.q(val), C.qs(grad), C.q(dd), C.b(inner)))
+                cs.add(term, {'functional': repr(f)[:300], 'x': vals(x)}, (term,))
+    return cs
+
+
 def correspondence(rng, tier):
-    return [tree_cases(rng, tier), block_cases(rng, tier), norm_cases(rng, tier), ufunc_cases(rng, tier)]
+    return [tree_cases(rng, tier), block_cases(rng, tier), norm_cases(rng, tier), ufunc_cases(rng, tier),
+            functional_cases(rng, tier)]
 
 
 # =====================================================================  probes
